@@ -112,12 +112,14 @@ Fixpoint find_blank_from (s : bytes) (i : N) : bool * N :=
 Definition find_blank (s : bytes) : bool * N := find_blank_from s 0.
 
 (* _dbus_string_skip_blank (str, start, &end) on the suffix starting at [start];
-   None = its _dbus_assert fails (next byte is CR or LF); without assertions the index is returned *)
+   None = its _dbus_assert (i == len || !DBUS_IS_ASCII_BLANK (str[i])) fails -- since the fix 94435c1 the
+   assertion states what the loop guarantees and can never fail (Proofs.AuthLex.skip_blank_total);
+   before it tested DBUS_IS_ASCII_WHITE and aborted on a blank followed by CR or LF (finding F08a) *)
 Fixpoint skip_blank_from (asserts : bool) (s : bytes) (i : N) : option N :=
   match s with
   | [] => Some i
   | c :: r => if is_blank c then skip_blank_from asserts r (i + 1)
-              else if asserts && is_white c then None else Some i
+              else if asserts && is_blank c then None else Some i
   end.
 Definition skip_blank (asserts : bool) (s : bytes) (start : N) : option N :=
   skip_blank_from asserts (skipn (N.to_nat start) s) start.
